@@ -13,15 +13,42 @@ class SPEC:
             "bytes) and 0 (rejected). Sessions are preceded, at random, by another template that gives the same unknown elements other "
             "lengths, by a known predecessor of the SAME (domain, id), or by a predecessor of the same (domain, id) with the same element ids "
             "in the same order but other lengths for the unknown ones (a re-definition, not a refresh); the collector is configured for tcp "
-            "or udp (`dec new <mode> udp`). Also: registry dump cross-check - every (enterprise, id) of the three registries x 65536 ids is "
+            "or udp (`dec new <mode> udp`). Some unknown elements are ids that exist under a SIBLING enterprise only (an IANA element "
+            "without reverse twin asked for under 29305, and the like); one session in five is repeated on a collector whose DecodingMode "
+            "was left unset (`dec new default`: documented to mean strict). Also: registry dump cross-check - every (enterprise, id) of the three registries x 65536 ids is "
             "looked up on both sides. Non-trivial = at least one unknown element between known ones; distinct by hash.")
     assumptions = ["an empty element name marks an unknown element (the code's convention); the registry has no decodable element with an empty name (tie_no_empty_names)"]
     trusted = []
 
 
+_TWINLESS = None
+
+
+def twinless():
+    """(enterprise, id) pairs that are NOT in the registry although the same id exists under a sibling enterprise: IANA elements
+    without a reverse twin asked for under the reverse enterprise 29305 (flowId 148, paddingOctets 210, ...), reverse / Antrea
+    ids asked for under IANA or under each other - an implementation that falls back to the sibling registry finds them"""
+    global _TWINLESS
+    if _TWINLESS is None:
+        have = {(ie.ent, ie.id) for ie in G.registry()}
+        ids = {}
+        for ent, i in have:
+            ids.setdefault(ent, set()).add(i)
+        out = []
+        for ent in (0, 29305, 56506):
+            for other in (0, 29305, 56506):
+                if other != ent:
+                    out += [(ent, i) for i in sorted(ids.get(other, ())) if (ent, i) not in have and 0 < i < 32768]
+        _TWINLESS = out
+    return _TWINLESS
+
+
 def unknown_ie(rng):
     ln = rng.choice([1, 2, 7, 300, 65535, 65535, 4, 16])
     r = rng.random()
+    if r < 0.15 and twinless():
+        ent, i = rng.choice(twinless())
+        return G.IE(ent, i, 0, ln if rng.random() < 0.7 else rng.choice([1, 2, 4, 8]), "")
     if r < 0.4:
         return G.IE(0, rng.randint(600, 32767), 0, ln, "")
     if r < 0.7:
@@ -97,6 +124,9 @@ def gen_cases(rng, tier):
         for mode in ("strict", "keep", "drop"):
             ops += ["dec new " + mode + proto] + pres + ["dec pkt " + tpl.hex(), "dec pkt " + data.hex(), "dec keys"]
         ops += ["dec new strict" + proto, "dec pkt " + tpl_k.hex(), "dec pkt " + data_k.hex()]
+        if rng.random() < 0.2:
+            # a collector whose DecodingMode was left unset: documented to be strict
+            ops += ["dec new default" + proto] + pres + ["dec pkt " + tpl.hex(), "dec pkt " + data.hex(), "dec keys"]
         inner = any(layout[i] and any(not x for x in layout[:i]) and any(not x for x in layout[i + 1:]) for i in range(k))
         label = "zero-len" if zero else ("all-known" if not any(layout) else ("all-unknown" if all(layout) else "mixed"))
         cases.append(Case(ops, label, inner, True))
@@ -125,7 +155,7 @@ def run(ctx):
         def td(start, end):
             pk = [k for k in range(start, end) if c.ops[k].startswith("dec pkt")]
             return pk[-2], pk[-1]
-        a = td(pos[0], pos[1]); b = td(pos[1], pos[2]); d = td(pos[2], pos[3]); e = td(pos[3], len(c.ops))
+        a = td(pos[0], pos[1]); b = td(pos[1], pos[2]); d = td(pos[2], pos[3]); e = td(pos[3], pos[4] if len(pos) > 4 else len(c.ops))
         chk_cases.append(Case(["chk c17 %s %s | %s" % (c.ops[a[0]][8:], c.ops[a[1]][8:], " | ".join([i[a[0]], i[a[1]], i[b[0]], i[b[1]], i[d[0]], i[d[1]], i[e[0]], i[e[1]]]))]))
     shards = ctx.cores if ctx.tier == "thorough" else min(8, ctx.cores)
     verdicts = exec_cases(ctx.driver, chk_cases, shards=shards)
